@@ -706,6 +706,9 @@ type c09Mon struct {
 	r     *Run
 	trace []string
 	prev  *c09Snap
+	// C06, third clause: headers accepted from a bonded sequencer for a height the hub had no descriptor for,
+	// kept until a descriptor for that height exists or the consensus state is gone: (client, height) -> signers
+	unv map[[2]uint64]map[int]bool
 }
 
 func (m *c09Mon) violate(sig, detail string) {
@@ -832,6 +835,7 @@ func (m *c09Mon) check(op, res string, cur *c09Snap) {
 			}
 		}
 	}
+	m.c06(f, kv, res, prev, cur)
 	switch f[0] {
 	case "lc_update":
 		ci, _ := m.h.clientByTok(f[1])
@@ -896,6 +900,73 @@ func (m *c09Mon) check(op, res string, cur *c09Snap) {
 					m.violate("C09/first_channel_only/not-the-first-opened-channel", op)
 				}
 			}
+		}
+	}
+}
+
+// c06 evaluates C06's third clause on the implementation, independently of the model and of the module's own
+// signer records: a sequencer must not withdraw (MsgUnbond / MsgDecreaseBond) while a header it signed, accepted
+// into the client that is now canonical for its rollapp, is still unverified (no state update covers its height yet
+// and the consensus state it produced is still in the client).
+func (m *c09Mon) c06(f []string, kv map[string]string, res string, prev, cur *c09Snap) {
+	if m.unv == nil {
+		m.unv = map[[2]uint64]map[int]bool{}
+	}
+	chainRa := func(s *c09Snap, ci int) int {
+		if ci < 0 || ci >= len(s.Clients) {
+			return -1
+		}
+		return s.Clients[ci].Chain
+	}
+	if f[0] == "lc_update" && res == "ok" {
+		ci, _ := m.h.clientByTok(f[1])
+		ht := atou(kv["h"])
+		ra := chainRa(cur, ci)
+		if ra >= 0 && cur.cons(ci, ht) != nil && prev.cons(ci, ht) == nil && prev.desc(ra, ht) == nil {
+			for _, v := range parseVals(kv["vals"]) {
+				// the signer the hub can attribute the header to: the named proposer, signing, a bonded sequencer of that rollapp
+				if v.Signs && v.Actor >= 0 && v.Actor == c09Actor(kv["ps"]) && prev.Bonded[v.Actor] && prev.SeqRa[v.Actor] == ra {
+					k := [2]uint64{uint64(ci), ht}
+					if m.unv[k] == nil {
+						m.unv[k] = map[int]bool{}
+					}
+					m.unv[k][v.Actor] = true
+					m.r.Hit("c06/optimistic-header-tracked")
+					if _, canon := prev.C2R[ci]; !canon {
+						m.r.Hit("c06/optimistic-header-before-designation")
+					}
+				}
+			}
+		}
+	}
+	for k := range m.unv {
+		ci, ht := int(k[0]), k[1]
+		if cur.cons(ci, ht) == nil || cur.desc(chainRa(cur, ci), ht) != nil {
+			delete(m.unv, k) // rolled back, or verified by a state update
+		}
+	}
+	if (f[0] == "unbond" || f[0] == "bond_dec") && len(f) > 1 {
+		a := c09Actor(f[1])
+		ra, isSeq := prev.SeqRa[a]
+		if !isSeq {
+			return
+		}
+		c, canon := prev.R2C[ra]
+		if !canon {
+			return
+		}
+		pending := false
+		for k, who := range m.unv {
+			if int(k[0]) == c && who[a] && prev.cons(c, k[1]) != nil && prev.desc(ra, k[1]) == nil {
+				pending = true
+				if res == "ok" {
+					m.violate("C06/withdraw/allowed-while-signed-header-unverified",
+						fmt.Sprintf("%s accepted although a%d signed the header at height %d of canonical client c%d of r%d, which no state update covers yet", strings.Join(f, " "), a, k[1], c, ra))
+				}
+			}
+		}
+		if pending {
+			m.r.Hit("c06/withdraw-attempt-with-unverified-header/" + res)
 		}
 	}
 }
